@@ -309,10 +309,12 @@ Eval(sc, i, t) ==
              need == IF n.fn \in NeedsTwo THEN 2 ELSE 1
              hit  == SelectSeq(js, LAMBDA j : Cardinality(WinIdx(sc.data[j], ref, n.rng)) >= need)
              outls(d) == IF n.fn = "last_over_time" THEN ToSet(d.ls) ELSE DropName(ToSet(d.ls))
-             \* two matching series that collide after the name is dropped: the reference fails the
-             \* query if both produce points anywhere; not decided per step
-             coll == \E a, b \in 1..Len(js) : a < b /\ outls(sc.data[js[a]]) = outls(sc.data[js[b]])
-         IN Res(OK, coll \/ n.fn \notin RangeFns,
+             \* two matching series that collide after the name is dropped: the reference evaluates a function
+             \* over a range vector for the whole window at once and fails the query if both produce a point
+             \* anywhere in it (not necessarily at the same step)
+             yields(j) == \E x \in 1..Len(Grid(sc)) : Cardinality(WinIdx(sc.data[j], RefTime(sc, n, Grid(sc)[x]), n.rng)) >= need
+             coll == \E a, b \in 1..Len(js) : a < b /\ outls(sc.data[js[a]]) = outls(sc.data[js[b]]) /\ yields(js[a]) /\ yields(js[b])
+         IN Res(IF coll THEN {"dupls"} ELSE OK, n.fn \notin RangeFns,
                 [x \in 1..Len(hit) |->
                    LET d == sc.data[hit[x]] IN
                    [ls |-> outls(d), val |-> Kernel(n.fn, WinSeq(d, WinIdx(d, ref, n.rng)))]])
@@ -322,8 +324,14 @@ Eval(sc, i, t) ==
     [] n.op = "neg" ->
          LET a == Eval(sc, n.args[1], t)
              v == MapVec(a.vec, LAMBDA e : [ls |-> DropName(e.ls), val |-> Neg(e.val)])
+             \* the reference negates the operand's matrix of the whole window and then looks for equal label sets:
+             \* two series that differ in the name only must not both have a point anywhere in the window
+             \* (looked for only when the data holds such a pair at all)
+             pot == \E j, k \in 1..Len(sc.data) : j < k /\ DropName(ToSet(sc.data[j].ls)) = DropName(ToSet(sc.data[k].ls))
+             all == IF pot THEN UNION {{e.ls : e \in ToSet(Eval(sc, n.args[1], Grid(sc)[x]).vec)} : x \in 1..Len(Grid(sc))} ELSE {}
+             anywhere == \E l1, l2 \in all : l1 # l2 /\ DropName(l1) = DropName(l2)
          IN IF IsScalarNode(pl, n.args[1]) THEN Res(a.why, a.unk, MapVec(a.vec, LAMBDA e : [ls |-> {}, val |-> Neg(e.val)]))
-            ELSE Res(a.why \cup DupLS(v), a.unk, v)
+            ELSE Res(a.why \cup DupLS(v) \cup (IF anywhere THEN {"dupls"} ELSE {}), a.unk, v)
 
     [] n.op = "fn" -> EvalFn(sc, i, t)
     [] n.op = "agg" -> EvalAgg(sc, i, t)
